@@ -102,8 +102,8 @@ def _non_default_config(hp_range: Domain) -> Hyperparameter:
     midpoint = hp_range.cast(midpoint)
     lower = hp_range.value_type(lower)
     upper = hp_range.value_type(upper)
-    midpoint = np.clip(midpoint, lower, upper)
-    return midpoint
+    # ``np.clip`` returns a NumPy scalar: cast back to the value type
+    return hp_range.cast(np.clip(midpoint, lower, upper))
 
 
 def _to_tuple(config: Dict[str, Any], keys: List) -> Tuple:
